@@ -1244,7 +1244,7 @@ func (t *typeParser) parse() typeParserResult {
 	}
 
 	// interpret the AST
-	if strings.HasPrefix(ast.name, COMPOSITE_TYPE) {
+	if strings.HasPrefix(ast.name, COMPOSITE_TYPE) && len(ast.params) > 0 {
 		count := len(ast.params)
 
 		// look for a collections param
@@ -1278,7 +1278,7 @@ func (t *typeParser) parse() typeParserResult {
 
 		for i, param := range ast.params[:count] {
 			class := param.class
-			reversed[i] = strings.HasPrefix(class.name, REVERSED_TYPE)
+			reversed[i] = strings.HasPrefix(class.name, REVERSED_TYPE) && len(class.params) > 0
 			if reversed[i] {
 				class = class.params[0].class
 			}
@@ -1294,7 +1294,7 @@ func (t *typeParser) parse() typeParserResult {
 	} else {
 		// not composite, so one type
 		class := *ast
-		reversed := strings.HasPrefix(class.name, REVERSED_TYPE)
+		reversed := strings.HasPrefix(class.name, REVERSED_TYPE) && len(class.params) > 0
 		if reversed {
 			class = class.params[0].class
 		}
@@ -1310,6 +1310,9 @@ func (t *typeParser) parse() typeParserResult {
 
 func (class *typeParserClassNode) asTypeInfo() TypeInfo {
 	if strings.HasPrefix(class.name, LIST_TYPE) {
+		if len(class.params) < 1 {
+			return NativeType{typ: TypeCustom, custom: class.input}
+		}
 		elem := class.params[0].class.asTypeInfo()
 		return CollectionType{
 			NativeType: NativeType{
@@ -1319,6 +1322,9 @@ func (class *typeParserClassNode) asTypeInfo() TypeInfo {
 		}
 	}
 	if strings.HasPrefix(class.name, SET_TYPE) {
+		if len(class.params) < 1 {
+			return NativeType{typ: TypeCustom, custom: class.input}
+		}
 		elem := class.params[0].class.asTypeInfo()
 		return CollectionType{
 			NativeType: NativeType{
@@ -1328,6 +1334,9 @@ func (class *typeParserClassNode) asTypeInfo() TypeInfo {
 		}
 	}
 	if strings.HasPrefix(class.name, MAP_TYPE) {
+		if len(class.params) < 2 {
+			return NativeType{typ: TypeCustom, custom: class.input}
+		}
 		key := class.params[0].class.asTypeInfo()
 		elem := class.params[1].class.asTypeInfo()
 		return CollectionType{
